@@ -1137,7 +1137,7 @@ def systematic_cases(ctx, pool, cplx, leaf_kinds):
             if ty1 is None or ty1[0] == 'F':
                 continue
             twos = level_forms(rng, pool, cplx, one, ty1)
-            keep = (0.06 if cplx else 0.1) if ctx.quick else 0.4
+            keep = (0.05 if cplx else 0.08) if ctx.quick else 0.25
             twos = [t for t in twos if rng.random() < keep]
             for two in twos:
                 if degree(two, pool) > 12:
